@@ -40,7 +40,7 @@ fn nest_not(depth: usize) -> Card {
     c
 }
 
-fn compile_stress(c: &mut Choices) -> (String, Module) {
+pub fn compile_stress(c: &mut Choices) -> (String, Module) {
     let mut main = Function::default();
     let mut m = Module::default();
     let kind = c.draw(11);
